@@ -185,6 +185,10 @@ HoldsUnder(o, r) == \A n \in ClauseNames : Clause(n, o, r)
 Holds(o) == \E r \in CountReadings : HoldsUnder(o, r)
 \* the clauses to report for a decision that no reading explains: those failing under the primary reading (never empty then)
 Failing(o) == IF Holds(o) THEN {} ELSE {n \in ClauseNames : ~Clause(n, o, PrimaryReading)}
+\* the same for an observation that does not include the filter output (application stage: only the Transfer / Disconnect is seen)
+ChoiceClauseNames == ClauseNames \ {"C18_FilterOutput"}
+HoldsChoice(o) == \E r \in CountReadings : \A n \in ChoiceClauseNames : Clause(n, o, r)
+FailingChoice(o) == IF HoldsChoice(o) THEN {} ELSE {n \in ChoiceClauseNames : ~Clause(n, o, PrimaryReading)}
 \* difference from the precise design that no clause covers: order / multiplicity of the filter output
 FilterDrift(o) == o.filtered # IdsOf(FilterOutput(o.chain, o.targets, o.player, o.host))
 
